@@ -271,7 +271,7 @@ def gen_conc_scenarios(seed, n, kinds=None):
     r = random.Random(seed * 101 + 3)
     sc = []
     for i in range(n):
-        kind = r.choice(kinds or ["nickrace", "joinrace", "limitrace", "mixed", "mixed", "mixed"])
+        kind = r.choice(kinds or ["nickrace", "joinrace", "limitrace", "killrace", "mixed", "mixed", "mixed"])
         cfg = ["cfg name irc.test"]
         setup, burst = [], {}
         if kind == "nickrace":
@@ -297,6 +297,40 @@ def gen_conc_scenarios(seed, n, kinds=None):
             if r.random() < 0.5:
                 burst[1].append(L(1, "PRIVMSG " + ",".join(chans) + " :multi"))
             burst[3] = [L(3, "PRIVMSG dst :from other")]
+        elif kind == "killrace":
+            # an operator kills X while another connection claims the nick X: whoever ends up owning X
+            # must still be registered after the killed session has been torn down
+            cfg.append("cfg oper oper operpw -")
+            pw = r.random() < 0.3
+            if pw:
+                cfg.append("cfg password srvpw")
+            P_ = lambda c: ([L(c, "PASS srvpw")] if pw else [])
+            setup += ["connect 1 127.0.0.1"] + P_(1) + [L(1, "NICK op"), L(1, "USER uop 0 * :r"), L(1, "OPER oper operpw")]
+            setup += ["connect 2 127.0.0.1"] + P_(2) + [L(2, "NICK vic"), L(2, "USER uvic 0 * :r")]
+            if r.random() < 0.5:
+                setup += [L(2, "JOIN #k"), L(1, "JOIN #k")]
+            setup += ["connect 3 127.0.0.1"] + P_(3) + [L(3, "USER u3 0 * :r")]
+            burst[1] = [L(1, "KILL vic :bye")]
+            burst[3] = [L(3, "NICK vic")] + ([L(3, "JOIN #k")] if r.random() < 0.5 else [])
+            if r.random() < 0.4:
+                setup += reg(4, "nn4")
+                burst[4] = [L(4, "NICK vic")]
+        elif kind == "killstall":
+            # the victim has stopped reading: it asked for far more output than its socket takes, so its task is
+            # stuck writing and the KILL is not acted upon until the harness reads again (after the burst).
+            # Meanwhile another connection claims the victim's nick.
+            cfg.append("cfg oper oper operpw -")
+            setup += ["connect 1 127.0.0.1", L(1, "NICK op"), L(1, "USER uop 0 * :r"), L(1, "OPER oper operpw")]
+            setup += reg(4, "fl")
+            names = ["#c%02d%s" % (x, "y" * 100) for x in range(40)]
+            for j in range(0, 40, 10):
+                setup.append(L(4, "JOIN " + ",".join(names[j:j + 10])))
+            setup += [L(4, "TOPIC %s :%s" % (nm, "t" * 350)) for nm in names]   # long LIST rows: ~20 KB per LIST
+            setup += ["connect-small 2 127.0.0.1", L(2, "NICK vic"), L(2, "USER uvic 0 * :r"), "mute 2"]
+            setup += ["connect 3 127.0.0.1", L(3, "USER u3 0 * :r")]
+            setup += ["send 2 LIST"] * r.choice([300, 360]) + ["sleep 400"]
+            burst[1] = [L(1, "KILL vic :bye")]
+            burst[3] = [L(3, "NICK vic"), L(3, "NICK vic")] + ([L(3, "JOIN #k")] if r.random() < 0.5 else [])
         elif kind == "joinrace":
             k = r.choice([2, 3])
             for c in range(1, k + 1):
@@ -318,7 +352,8 @@ def gen_conc_scenarios(seed, n, kinds=None):
             for c in range(1, k + 1):
                 setup += reg(c, "n%d" % c)
             setup += [L(1, "JOIN #c")] + ([L(2, "JOIN #c")] if r.random() < 0.7 else [])
-            menu = ["PRIVMSG #c :m%d", "NICK x%d", "JOIN #c", "PART #c", "TOPIC #c :t%d", "MODE #c +m", "MODE #c -m",
+            menu = ["PRIVMSG #c :m%d", "NICK x%d", "JOIN #c", "PART #c", "TOPIC #c :t%d", "TOPIC #c :t%d", "MODE #c +m", "MODE #c -m",
+                    "MODE #c +t", "MODE #c -t", "MODE #c -o n1", "MODE #c +o n2",
                     "KICK #c n2", "AWAY :a%d", "INVITE n3 #c", "MODE #c +v n2", "PRIVMSG n1 :p%d", "QUIT", "NAMES #c",
                     "MODE #c +l 2", "JOIN #d", "WHO #c"]
             for c in range(1, k + 1):
@@ -432,9 +467,13 @@ def run_conc(tier, seed, log, kinds=None, n_override=None):
                         f.write(l + "\n")
                     f.write("begin\n")
                     for o in setup + il:
-                        f.write(o + "\n")
+                        if o.startswith(("mute ", "sleep ")):
+                            continue  # harness-only: which sockets are not read before the burst ends
+                        if o.startswith("send "):
+                            o = "line " + o[5:]
+                        f.write(o.replace("connect-small ", "connect ") + "\n")
                     f.write("end\n")
-                    index.append((name, k, len(setup), il))
+                    index.append((name, k, len([o for o in setup if not o.startswith(("mute ", "sleep "))]), il))
         rm = runner.sh([runner.MODEL, "run", mpath], timeout=3000)
         if rm.returncode != 0:
             raise runner.BuildError("model run failed: " + rm.stderr[-800:])
@@ -461,10 +500,14 @@ def run_conc(tier, seed, log, kinds=None, n_override=None):
             ending = {c for c, v in iouts.items() if any(" ERROR" in l for l in v)}
             ending |= {c for c, cmds in burst.items() if any(unesc(o.split(" ", 2)[2]).upper().startswith("QUIT") for o in cmds)}
 
+            muted = {int(o.split(" ")[1]) for o in setup if o.startswith("mute ")}
+
             def explains(o):
                 for c in set(o) | set(iouts):
+                    if c in muted:
+                        continue  # not read before the burst ended: its transcript mixes both phases
                     a, b = iouts.get(c, []), o.get(c, [])
-                    if c in ending:
+                    if c in ending or any(" ERROR" in l for l in b):
                         cb = collections.Counter(b)
                         ca = collections.Counter(a)
                         if any(ca[k] > cb[k] for k in ca):
@@ -480,7 +523,7 @@ def run_conc(tier, seed, log, kinds=None, n_override=None):
                 sum((collections.Counter(t[1].get(c, [])) - collections.Counter(iouts.get(c, []))).values())
                 for c in set(iouts) | set(t[1])))
             delta = {}
-            for c in set(iouts) | set(best[1]):
+            for c in (set(iouts) | set(best[1])) - muted:
                 a, b = collections.Counter(iouts.get(c, [])), collections.Counter(best[1].get(c, []))
                 if a != b:
                     delta[str(c)] = {"only_impl": list((a - b).elements())[:6], "only_model": list((b - a).elements())[:6]}
@@ -488,8 +531,8 @@ def run_conc(tier, seed, log, kinds=None, n_override=None):
                 "what": "no order of the concurrently issued commands (respecting each connection's own order) explains the observed replies and final state",
                 "cfg": cfg, "setup": runner.render_ops(setup),
                 "burst": {str(c): runner.render_ops(v) for c, v in burst.items()},
-                "impl_out": {str(c): v for c, v in iouts.items()}, "impl_final_state": ifinal,
-                "closest_model_out": {str(c): v for c, v in best[1].items()}, "difference_to_closest": delta,
+                "impl_out": {str(c): v for c, v in iouts.items() if c not in muted}, "impl_final_state": ifinal,
+                "closest_model_out": {str(c): v for c, v in best[1].items() if c not in muted}, "difference_to_closest": delta,
                 "final_state_explained": state_ok, "interleavings_tried": len(by_name[name]), "workers": workers})
 
         for name, cfg, setup, burst in scenarios:
@@ -723,8 +766,12 @@ def run(pid, tier, seed, log):
         out["coverage"] = {"conc_" + k: v for k, v in out["coverage"].items() if k not in ("rule",)}
     if pid == "C02":
         # registration races: real server, simultaneous claims to one nickname
-        out = run_conc(tier, seed, log, kinds=["nickrace"])
+        out = run_conc(tier, seed, log, kinds=["nickrace", "nickrace", "killrace"])
         out["coverage"] = {"conc_" + k: v for k, v in out["coverage"].items() if k not in ("rule",)}
+        # a killed session that is slow to end (its client stopped reading) while its nick is claimed again
+        o2 = run_conc(tier, seed, log, kinds=["killstall"], n_override=(1 if tier == "quick" else 6))
+        out["coverage"].update({"killstall_" + k: v for k, v in o2["coverage"].items() if k not in ("rule",)})
+        out["violations"] += o2["violations"]
         info, viol = run_extractor("lock_map.py", "lock-structure-changed",
                                    "the lock/await structure of a registration handler differs from the one the model assumes (check and insert of a nickname in one write-lock section)")
         reg_handlers = ("authenticate", "process_nick", "process_user", "process_pass", "process_cap", "remove_user")
@@ -733,6 +780,14 @@ def run(pid, tier, seed, log):
             if d:
                 viol[0][1]["differences"] = d
                 out["violations"] += viol
+    if pid == "C06":
+        # session ends on the real server: KILL racing a new claim to the nick, and a killed session whose
+        # teardown is delayed (client stopped reading) - teardown must remove exactly the ended session's state
+        out = run_conc(tier, seed, log, kinds=["killrace"], n_override=(6 if tier == "quick" else 60))
+        out["coverage"] = {"conc_" + k: v for k, v in out["coverage"].items() if k not in ("rule",)}
+        o2 = run_conc(tier, seed + 1, log, kinds=["killstall"], n_override=(1 if tier == "quick" else 4))
+        out["coverage"].update({"killstall_" + k: v for k, v in o2["coverage"].items() if k not in ("rule",)})
+        out["violations"] += o2["violations"]
     if pid == "C20":
         b = run_binary(tier, seed, log)
         out["coverage"].update(b["coverage"])
